@@ -32,11 +32,13 @@ Three families of cases
 The documented SDEs are the specification.  Which meaning of `asperity` (IWP) and of
 `sigma` (OUP) is the documented one is read from the formula lines of the factory
 docstrings (see `documented_conventions`): as shipped they say `sigma*asperity*xi` and
-`dx/dt + gamma x = sigma xi`.  If the code realises the *other* convention exactly, the
-violation is keyed as a convention mismatch, anything else as a covariance defect.
+`dx/dt + gamma x = sigma xi`.  If the code realises the *other* convention exactly, this
+single root cause is reported by eight dedicated smallest cases (role="convention", one
+per interface and parameter form) with a convention key; every other case is then judged
+under the convention the code realises (labelled in its outcome) and finish() demands that
+this convention is the same in all cases.  Any other deviation is a covariance defect.
 """
 import itertools
-import os
 
 import numpy as np
 
